@@ -301,6 +301,10 @@ nni_msgq_close(nni_msgq *mq)
 {
 	nni_aio *aio;
 
+	if (mq == NULL) {
+		// (owner failed to allocate it; see nni_msgq_fini)
+		return;
+	}
 	nni_mtx_lock(&mq->mq_lock);
 	mq->mq_closed = true;
 	// Free the messages orphaned in the queue.
